@@ -34,7 +34,7 @@ pub struct ModuleSpec {
     pub imports: Vec<Import>,
     /// How *every* import of this module spells its file name: 0 plainly, 1 with a needless
     /// percent escape of its first character, 2 with a doubled separator before it, 3 with a
-    /// fragment, 4 with a query. A file system takes all of these for the same file; each
+    /// fragment, 4 with a query, 5 with a tripled separator. A file system takes all of these for the same file; each
     /// module keeps one spelling throughout a graph (whether two such spellings are "the same
     /// module" is not something the statement settles).
     #[serde(default)]
@@ -73,6 +73,13 @@ fn apply_odd(spelled: &str, odd: u8) -> String {
         }
         3 => format!("{body}#v1"),
         4 => format!("{body}?rev=2"),
+        5 => {
+            if cut > 0 {
+                format!("{}//{}", &body[..cut], &body[cut..])
+            } else {
+                format!(".///{body}")
+            }
+        }
         _ => body.to_string(),
     };
     format!("{r}{blank}")
@@ -786,7 +793,7 @@ pub fn gen_scenario(rng: &mut Rng) -> Scenario {
     if rng.chance(1, 4) {
         for m in modules.iter_mut().skip(1) {
             if rng.chance(1, 2) {
-                m.odd = rng.range(1, 4) as u8;
+                m.odd = rng.range(1, 5) as u8;
             }
         }
     }
